@@ -25,6 +25,8 @@ pub enum Case {
     P(crate::psim::PCase),
     K(crate::ksim::KCase),
     Q(crate::qsim::QCase),
+    /// not a simulation: `Listener::new` / `Drop` on the real filesystem (C15's socket-path clause)
+    Fs(u8),
 }
 
 pub fn case_sig(c: &Case) -> u64 {
@@ -355,6 +357,69 @@ pub fn eval(case: &Case) -> RunResult {
         Case::P(c) => crate::psim::eval_p(c),
         Case::K(c) => crate::ksim::eval_k(c),
         Case::Q(c) => crate::qsim::eval_q(c),
+        Case::Fs(k) => eval_fs(*k),
+    }
+}
+
+/// C15, last clause: a filesystem socket the server created is removed. The simulated listener has no
+/// path, so this one clause is looked at with the real `Listener` on the real filesystem: bind, see
+/// the path, drop, see it gone. Variants: plain path, path with `;mode=` parameters, a path that
+/// already exists as a stale socket file, a path in a nested directory, two listeners one after the
+/// other on the same path.
+pub fn eval_fs(kind: u8) -> RunResult {
+    let mut violations = Vec::new();
+    let base = crate::report::verif_dir().join("replays").join(format!(".sock-{}-{}", std::process::id(), kind));
+    let _ = std::fs::remove_dir_all(&base);
+    let _ = std::fs::create_dir_all(base.join("nested/dir"));
+    let path = match kind {
+        3 => base.join("nested/dir/s.sock"),
+        _ => base.join("s.sock"),
+    };
+    let addr = match kind {
+        1 => format!("unix:{};mode=0600", path.display()),
+        _ => format!("unix:{}", path.display()),
+    };
+    if kind == 2 {
+        // a stale file where the socket will be
+        let _ = std::fs::write(&path, b"stale");
+    }
+    let rounds = if kind == 4 { 2 } else { 1 };
+    for r in 0..rounds {
+        match varlink::Listener::new(&addr) {
+            Ok(l) => {
+                if !path.exists() {
+                    violations.push(viol("C15", "socket-path", format!("Listener::new({:?}) succeeded but {:?} does not exist", addr, path)));
+                }
+                drop(l);
+                if path.exists() {
+                    violations.push(viol(
+                        "C15",
+                        "socket-path-left-behind",
+                        format!("the listener bound to {:?} was dropped (round {}), the socket path is still there", addr, r),
+                    ));
+                }
+            }
+            Err(e) => violations.push(viol("C15", "socket-path", format!("Listener::new({:?}) failed: {:?}", addr, e.kind()))),
+        }
+    }
+    let _ = std::fs::remove_dir_all(&base);
+    let mut f = Fnv::new();
+    f.u64(kind as u64);
+    f.str(&format!("{:?}", violations));
+    RunResult {
+        violations,
+        sig: 0xF5F5_0000 + kind as u64,
+        nontrivial: true,
+        faults: vec![],
+        probes: vec![("real_filesystem_listener_bound_and_dropped", 1)],
+        sim_ms: 0,
+        steps: 0,
+        log_hash: f.0,
+        inconclusive: false,
+        sample: Some(json!({
+            "scenario": "real filesystem (not simulated)",
+            "address_form": *["unix:path", "unix:path;mode=0600", "stale file in the way", "nested directory", "bound twice in a row"].get(kind as usize).unwrap_or(&"?"),
+        })),
     }
 }
 
@@ -448,6 +513,7 @@ pub fn shrink_candidates(case: &Case) -> Vec<Case> {
         Case::P(c) => crate::psim::shrinks(c).into_iter().map(Case::P).collect(),
         Case::K(c) => crate::ksim::shrinks(c).into_iter().map(Case::K).collect(),
         Case::Q(c) => crate::qsim::shrinks(c).into_iter().map(Case::Q).collect(),
+        Case::Fs(_) => vec![],
     }
 }
 
